@@ -1,4 +1,5 @@
 import Wayfind.Proofs.Reachable
+import Wayfind.Generated.Facts
 
 /-! # C03 — the documented priority picks the winner
 `refWalk` (Spec/RefWalk.lean) is the documented walk written over a plain list of routes: literal text first, then
@@ -11,7 +12,7 @@ Status: **partial** — stored routes ↔ live templates is the registry invaria
 
 theorem C03_search_is_documented_walk (env : Env) (r : Router) (h : Reachable r) (path : Bytes) :
     r.search env path =
-      (refWalk env path.length (Node.routes r.root) path []).map (fun (i, ps) => ⟨i.template, i.expanded, i.data, ps⟩) :=
+      (refWalk env path.length (Node.routes r.root) path []).map toMatch :=
   Router.search_eq_walk env r h path
 
 /-- literal text is tried before any parameter: if the literal branch of the walk succeeds, that is the answer -/
@@ -24,3 +25,6 @@ theorem C03_literal_first (env : Env) (fuel : Nat) (rs : List Route) (b : Byte) 
 is deeper, or equally deep and at least as long -/
 theorem C03_best_rule (r : Info) (b : Info) (ps : Params) :
     better r (some (b, ps)) = (decide (r.depth > b.depth) || (r.depth == b.depth && decide (r.length ≥ b.length))) := rfl
+
+/-- generated obligation: `Node::search` tries the seven kinds in the documented order -/
+theorem C03_kind_order_in_source : Generated.searchKindOrder = [0, 1, 2, 3, 4, 5, 6] := by decide
